@@ -42,7 +42,8 @@ type Client struct {
 
 // Gen is one life of the agent
 type Gen struct {
-	Upstream   []string `json:"upstream"` // behaviour per accepted upstream connection: healthy | closeNow | noAck | resetAfter1 | resetAfter2 | lateAck | refuse
+	Upstream2  []string `json:"upstream2"` // the same for the second output's upstream (Script.TwoOutputs)
+	Upstream   []string `json:"upstream"`  // behaviour per accepted upstream connection: healthy | closeNow | noAck | resetAfter1 | resetAfter2 | lateAck | refuse
 	Clients    []Client `json:"clients"`
 	StopAfter  int      `json:"stopAfterMs"` // pause between the last client closing and the stop request
 	Reload     string   `json:"reload"`      // "" | same | transform | invalid | incompatible | keysdrop
@@ -56,10 +57,11 @@ type Gen struct {
 
 // Script is a whole history
 type Script struct {
-	ID        string `json:"id"`
-	Keys      int    `json:"keys"`      // number of key sets (apps)
-	MemWindow int    `json:"memWindow"` // defs.BufferMaxNumChunksInMemory
-	Gens      []Gen  `json:"gens"`
+	ID         string `json:"id"`
+	TwoOutputs bool   `json:"twoOutputs"` // a second Fluentd output with its own upstream (Gen.Upstream2) and queue root
+	Keys       int    `json:"keys"`       // number of key sets (apps)
+	MemWindow  int    `json:"memWindow"`  // defs.BufferMaxNumChunksInMemory
+	Gens       []Gen  `json:"gens"`
 }
 
 const confTemplate = `
@@ -131,6 +133,7 @@ func confText(kind, queueRoot, upAddr string, twoKeys bool) string {
 type stamp struct{ g, c, i int }
 
 type upstream struct {
+	pre    string // "Up" for the first output's upstream, "Up2" for the second's
 	tr     *vtrace.Tracer
 	addr   string
 	ln     net.Listener
@@ -192,7 +195,7 @@ func (u *upstream) run(ln net.Listener) {
 		u.nconn++
 		k := u.nconn
 		u.mu.Unlock()
-		u.tr.Emit("UpAccept", "k", k, "beh", beh)
+		u.tr.Emit(u.pre+"Accept", "k", k, "beh", beh)
 		go u.serve(c, k, beh)
 	}
 }
@@ -215,7 +218,7 @@ func (u *upstream) serve(c net.Conn, k int, beh string) {
 		}
 		n++
 		st, ok := stampsOf(&msg)
-		u.tr.Emit("UpChunk", "k", k, "id", msg.Option.Chunk, "tag", msg.Tag, "stamps", st, "size", msg.Option.Size, "intact", ok)
+		u.tr.Emit(u.pre+"Chunk", "k", k, "id", msg.Option.Chunk, "tag", msg.Tag, "stamps", st, "size", msg.Option.Size, "intact", ok)
 		switch beh {
 		case "noAck":
 			continue
@@ -234,7 +237,7 @@ func (u *upstream) serve(c net.Conn, k int, beh string) {
 			u.ackedStamps[stamp{s[0], s[1], s[2]}] = true
 		}
 		u.mu.Unlock()
-		u.tr.Emit("UpAck", "k", k, "id", msg.Option.Chunk)
+		u.tr.Emit(u.pre+"Ack", "k", k, "id", msg.Option.Chunk)
 		if _, err := c.Write(buf.Bytes()); err != nil {
 			return
 		}
@@ -295,14 +298,33 @@ func RunScript(sc Script, work string) *vtrace.Tracer {
 	} else {
 		defs.BufferMaxNumChunksInMemory = 500
 	}
-	up := &upstream{tr: tr, addr: "127.0.0.1:0", ackedStamps: map[stamp]bool{}}
+	up := &upstream{pre: "Up", tr: tr, addr: "127.0.0.1:0", ackedStamps: map[stamp]bool{}}
 	if err := up.listen(); err != nil {
 		tr.Emit("HarnessError", "what", err.Error())
 		return tr
 	}
 	defer func() { up.ln.Close() }()
-	cf := filepath.Join(root, "conf.yml")
+	var up2 *upstream
 	queue := filepath.Join(root, "queue")
+	queue2 := filepath.Join(root, "queue2")
+	if sc.TwoOutputs {
+		up2 = &upstream{pre: "Up2", tr: tr, addr: "127.0.0.1:0", ackedStamps: map[stamp]bool{}}
+		if err := up2.listen(); err != nil {
+			tr.Emit("HarnessError", "what", err.Error())
+			return tr
+		}
+		defer func() { up2.ln.Close() }()
+	}
+	conf := func(kind string, twoKeys bool) string {
+		text := confText(kind, queue, up.addr, twoKeys)
+		if up2 != nil {
+			i := strings.Index(text, "  - name: out1")
+			second := strings.Replace(strings.Replace(strings.Replace(text[i:], "name: out1", "name: out2", 1), "rootPath: "+queue, "rootPath: "+queue2, 1), "address: "+up.addr, "address: "+up2.addr, 1)
+			text += second
+		}
+		return text
+	}
+	cf := filepath.Join(root, "conf.yml")
 	keys := sc.Keys
 	if keys < 1 {
 		keys = 1
@@ -313,6 +335,11 @@ func RunScript(sc Script, work string) *vtrace.Tracer {
 		up.mu.Lock()
 		up.script, up.nconn, up.gen = g.Upstream, 0, genNo
 		up.mu.Unlock()
+		if up2 != nil {
+			up2.mu.Lock()
+			up2.script, up2.nconn, up2.gen = g.Upstream2, 0, genNo
+			up2.mu.Unlock()
+		}
 		tr.Emit("Start", "gen", genNo)
 		filesBefore := 0
 		_ = filepath.Walk(queue, func(p string, info os.FileInfo, err error) error {
@@ -321,7 +348,7 @@ func RunScript(sc Script, work string) *vtrace.Tracer {
 			}
 			return nil
 		})
-		_ = os.WriteFile(cf, []byte(confText("same", queue, up.addr, g.TwoKeys)), 0o644)
+		_ = os.WriteFile(cf, []byte(conf("same", g.TwoKeys)), 0o644)
 		prefix := fmt.Sprintf("ag%d_g%d_", runNo, genNo)
 		var orc base.Orchestrator
 		var launch func(base.Orchestrator) ([]string, func())
@@ -397,7 +424,7 @@ func RunScript(sc Script, work string) *vtrace.Tracer {
 			go func() {
 				defer wg.Done()
 				time.Sleep(time.Duration(g.ReloadAtMs) * time.Millisecond)
-				_ = os.WriteFile(cf, []byte(confText(g.Reload, queue, up.addr, g.TwoKeys)), 0o644)
+				_ = os.WriteFile(cf, []byte(conf(g.Reload, g.TwoKeys)), 0o644)
 				before := sumMetric(gather(), "slogagent_reloads_total")
 				tr.Emit("ReloadBegin", "kind", g.Reload)
 				reloadable.ReloadForVerif()
@@ -419,25 +446,45 @@ func RunScript(sc Script, work string) *vtrace.Tracer {
 			time.Sleep(5 * time.Millisecond)
 		}
 		if g.Drain {
-			deadline := time.Now().Add(6 * time.Second)
-			for time.Now().Before(deadline) {
-				up.mu.Lock()
-				missing := 0
-				for gg := 1; gg <= genNo; gg++ {
-					for ci, cl := range sc.Gens[gg-1].Clients {
-						for i := 1; i <= cl.N; i++ {
-							if !up.ackedStamps[stamp{gg, ci + 1, i}] {
-								missing++
+			// the upstreams are healthy from here on: every record of every generation has to be acknowledged, by each output
+			for ui, u := range []*upstream{up, up2} {
+				if u == nil {
+					continue
+				}
+				deadline := time.Now().Add(6 * time.Second)
+				missing := -1
+				for time.Now().Before(deadline) {
+					u.mu.Lock()
+					missing = 0
+					for gg := 1; gg <= genNo; gg++ {
+						for ci, cl := range sc.Gens[gg-1].Clients {
+							for i := 1; i <= cl.N; i++ {
+								if !u.ackedStamps[stamp{gg, ci + 1, i}] {
+									missing++
+								}
 							}
 						}
 					}
+					u.mu.Unlock()
+					if missing == 0 {
+						break
+					}
+					time.Sleep(10 * time.Millisecond)
 				}
-				up.mu.Unlock()
+				name := []string{"Drained", "Drained2"}[ui]
+				// a history that changes the orchestration keys between generations is outside the claim: queue
+				// directories are named by the key values, and the documentation says such a change breaks the recovery
+				sameKeys := true
+				for _, og := range sc.Gens {
+					if og.TwoKeys != sc.Gens[0].TwoKeys || og.Reload == "keysdrop" {
+						sameKeys = false
+					}
+				}
 				if missing == 0 {
-					tr.Emit("Drained", "gen", genNo)
-					break
+					tr.Emit(name, "gen", genNo)
+				} else if sameKeys {
+					tr.Emit("Not"+name, "gen", genNo, "missing", missing) // no action of the observer explains it
 				}
-				time.Sleep(10 * time.Millisecond)
 			}
 			time.Sleep(30 * time.Millisecond)
 		}
@@ -462,6 +509,10 @@ func RunScript(sc Script, work string) *vtrace.Tracer {
 		}
 		ds, dok := diskStamps(queue)
 		tr.Emit("Disk", "gen", genNo, "stamps", ds, "intact", dok)
+		if up2 != nil {
+			ds2, dok2 := diskStamps(queue2)
+			tr.Emit("Disk2", "gen", genNo, "stamps", ds2, "intact", dok2)
+		}
 		m := gather()
 		nfiles := 0
 		_ = filepath.Walk(queue, func(p string, info os.FileInfo, err error) error {
@@ -565,10 +616,34 @@ func Main(args []string) int {
 		rankIDs(evs)
 		fo, _ := os.OpenFile(*outPath, os.O_CREATE|os.O_WRONLY|os.O_APPEND, 0o644)
 		enc := json.NewEncoder(fo)
+		// with two outputs the history is validated once per output: the first view has the first upstream and queue (and
+		// no metrics: the counters are sums over both outputs), the second view the second upstream and queue
+		second := []vtrace.Event{}
 		for _, e := range evs {
+			name, _ := e["ev"].(string)
+			switch {
+			case strings.HasPrefix(name, "Up2") || name == "Disk2" || name == "Drained2" || name == "NotDrained2":
+				c := vtrace.Event{}
+				for k, v := range e {
+					c[k] = v
+				}
+				c["ev"] = strings.Replace(strings.Replace(name, "Up2", "Up", 1), "2", "", 1)
+				second = append(second, c)
+				continue
+			case sc.TwoOutputs && (name == "Metrics" || name == "MetricsOld"):
+				continue
+			case sc.TwoOutputs && !(strings.HasPrefix(name, "Up") || name == "Disk" || name == "Drained" || name == "NotDrained"):
+				second = append(second, e)
+			}
 			_ = enc.Encode(e)
 		}
 		_ = enc.Encode(vtrace.Event{"ev": "RESET", "script": sc.ID})
+		if sc.TwoOutputs {
+			for _, e := range second {
+				_ = enc.Encode(e)
+			}
+			_ = enc.Encode(vtrace.Event{"ev": "RESET", "script": sc.ID})
+		}
 		fo.Close()
 		n++
 		_ = dumpMetrics
